@@ -37,7 +37,10 @@ def seed():
 # ------------------------------------------------------------------ work dirs
 
 def workdir(name):
-    d = os.path.join(WORK, name)
+    # one scratch directory per (check, tier): a quick and a thorough run of the same check may
+    # run side by side without deleting each other's files
+    tag = os.environ.get("VERIF_RUN_TAG", "")
+    d = os.path.join(WORK, name + ("-" + tag if tag else ""))
     shutil.rmtree(d, ignore_errors=True)
     os.makedirs(d)
     return d
